@@ -878,7 +878,7 @@ Section Warm.
         destruct (qav_delivered_log cache o port u a q _ mc st1 _ Hdel Hbud Hserve (msg_matches _ _ _ _ _ _ (or_introl eq_refl)) Hv)
           as (ts' & Eq & _ & Hlog).
         exists ts'. split; [|exact Hlog].
-        rewrite (cstep_answer cache cache_get cache_insert_all sort_names zs o OnlyV4 port _ _ _ _ _ _ _ _ _ _ _ _ _ _ _ _ _ Ep Eh Eq).
+        rewrite (cstep_answer cache cache_get cache_insert_all sort_names zs o OnlyV4 port _ _ _ _ _ _ _ _ _ _ _ _ _ _ _ _ _ Ep Eh Eq) by (intros r0 Hr0; apply owned_elsewhere_qname; eapply Forall_forall in Hplain; [|exact Hr0]; exact (proj1 (proj2 Hplain))).
         rewrite merge_nil_l, Hsoa. reflexivity.
       - destruct Ho as (Hb & _).
         apply best_zone_spec in Hb. destruct Hb as [Hb|[_ Hsub]]; [discriminate|].
@@ -887,7 +887,7 @@ Section Warm.
         destruct (qav_delivered_log cache o port u a q _ mc st1 _ Hdel Hbud Hserve (msg_matches _ _ _ _ _ _ Hrc) Hv)
           as (ts' & Eq & _ & Hlog).
         exists ts'. split; [|exact Hlog].
-        rewrite (cstep_answer cache cache_get cache_insert_all sort_names zs o OnlyV4 port _ _ _ _ _ _ _ _ _ _ _ _ _ _ _ _ _ Ep Eh Eq).
+        rewrite (cstep_answer cache cache_get cache_insert_all sort_names zs o OnlyV4 port _ _ _ _ _ _ _ _ _ _ _ _ _ _ _ _ _ Ep Eh Eq) by (intros r0 []).
         rewrite merge_nil_l, Hnil, Hsoa. reflexivity.
     Qed.
 
